@@ -142,6 +142,46 @@ func buildSim(verifDir, repo, work string) (*buildResult, error) {
 	}
 	overlay[selPath] = selOut
 
+	// deterministic map iteration in the simulation binary only: constant hash
+	// keys, constant per-map seeds, iteration always starting at offset 0. (The
+	// library ranges over maps in drpcmigrate.ListenMux.Run and in the metadata
+	// encoder; without this the schedule would depend on Go's per-process map
+	// randomisation.)
+	type textPatch struct {
+		file, old, new string
+		count      int
+	}
+	patches := []textPatch{
+		{"src/runtime/alg.go", "hashkey[i] = uintptr(bootstrapRand())", "hashkey[i] = uintptr(0x9e3779b97f4a7c15 + uint64(i)*0x632be59bd9b4e019)", 1},
+		{"src/runtime/alg.go", "key[i] = bootstrapRand()", "key[i] = 0x9e3779b97f4a7c15 + uint64(i)*0x632be59bd9b4e019", 1},
+		{"src/internal/runtime/maps/map.go", "m.seed = uintptr(rand())", "m.seed = 0x5eed", 4},
+		{"src/internal/runtime/maps/table.go", "it.entryOffset = rand()", "it.entryOffset = 0", 1},
+		{"src/internal/runtime/maps/table.go", "it.dirOffset = rand()", "it.dirOffset = 0", 1},
+	}
+	patched2 := map[string]string{}
+	for _, tp := range patches {
+		full := filepath.Join(goRoot(), tp.file)
+		cur, ok := patched2[full]
+		if !ok {
+			b, err := os.ReadFile(full)
+			if err != nil {
+				return nil, err
+			}
+			cur = string(b)
+		}
+		if strings.Count(cur, tp.old) != tp.count {
+			return nil, fmt.Errorf("%s: anchor %q not found exactly %d time(s)", tp.file, tp.old, tp.count)
+		}
+		patched2[full] = strings.ReplaceAll(cur, tp.old, tp.new)
+	}
+	for full, txt := range patched2 {
+		out := filepath.Join(work, strings.ReplaceAll(strings.TrimPrefix(full, goRoot()+"/"), "/", "_")+".txt")
+		if err := os.WriteFile(out, []byte(txt), 0o644); err != nil {
+			return nil, err
+		}
+		overlay[full] = out
+	}
+
 	ov, _ := json.MarshalIndent(map[string]any{"Replace": overlay}, "", " ")
 	ovPath := filepath.Join(work, "overlay.json")
 	if err := os.WriteFile(ovPath, ov, 0o644); err != nil {
